@@ -142,9 +142,22 @@ def novel(width=80):
     return c["novel_by_width"][width]
 
 
-def novel_exact():
-    """the literals the baseline does not have, themselves"""
-    return list(_load()["novel"])
+def novel_exact(width=None):
+    """the literals the baseline does not have, themselves; with a width: also moved up by whole bytes as far as the field
+    reaches (a signature such as C24Fh in LBA bits 23..8 is written down unshifted)"""
+    nov = list(_load()["novel"])
+    if width is None:
+        return nov
+    out = []
+    for v in nov:
+        if 0 <= v < (1 << width):
+            out.append(v)
+    for v in nov:
+        if v > 0xFF:
+            for sh in (8, 16, 24):
+                if (v << sh) < (1 << width):
+                    out += [v << sh, (v << sh) | 1]
+    return out
 
 
 def small(limit=1100):
